@@ -109,3 +109,27 @@ Proof.
     + constructor; simpl; unfold in_flight; simpl; try apply I; try pcsplit I t Hpc.
     + constructor; simpl; unfold in_flight; simpl; try apply I; try pcsplit I t Hpc.
   - constructor; simpl; unfold in_flight; simpl; try apply I; try pcsplit I t Hpc.
+  - destruct (setup_fails c t (count_occ Nat.eq_dec (failed s) t)).
+    + constructor; simpl; unfold in_flight; simpl; try apply I; try pcsplit I t Hpc.
+    + assert (Hfresh_t : ~ In t (map fst (created s))).
+      { intro Hin. apply in_map_iff in Hin. destruct Hin as [[t' o'] [E Hin]]. simpl in E. subst t'.
+        destruct (i_owner _ I _ _ Hin) as [Hl|Hp]; [|congruence].
+        rewrite (i_pc_setup _ I t) in Hl; [discriminate|auto]. }
+      assert (Hfresh_o : ~ In (next s) (map snd (created s))).
+      { intro Hin. apply in_map_iff in Hin. destruct Hin as [[t' o'] [E Hin]]. simpl in E. subst o'.
+        apply (i_lt _ I) in Hin. lia. }
+      assert (Hfresh_obj : ~ In (next s) (objects s)).
+      { intro Hin. destruct (i_objs_created _ I _ Hin) as [t' Hc]. apply (i_lt _ I) in Hc. lia. }
+      constructor; simpl; unfold in_flight; simpl; try apply I; try pcsplit I t Hpc.
+      * destruct H as [H|H]; [inversion H; lia|]. apply (i_lt _ I) in H. lia.
+      * destruct H as [H|H]; [inversion H; lia|]. apply (i_lt _ I) in H. lia.
+      * constructor; [assumption|apply I].
+      * constructor; [assumption|apply I].
+      * right. byI I.
+      * destruct (i_pc_store _ I _ _ H). auto.
+      * destruct (i_objs_created _ I _ H) as [t' Ht']. exists t'. auto.
+      * right. byI I.
+  - constructor; simpl; unfold in_flight; simpl; try apply I; try pcsplit I t Hpc.
+  - assert (Hnew : ~ In o (objects s)).
+    { intro Hin. apply (i_objs2 _ I t o Hin). right. assumption. }
+    constructor; simpl; unfold in_flight; simpl; try apply I; try pcsplit I t Hpc.
